@@ -641,7 +641,9 @@ class KlongInterpreter():
         # .f refers to the whole function, including its local declarations
         dot_f = f
 
-        if is_list(f) and len(f) > 1 and is_list(f[0]) and len(f[0]) > 0:
+        # A local declaration is an array literal ([a b] or [a;b]) in front of a body of several
+        # expressions. A conditional (KGCond is a list) is neither such a body nor a declaration.
+        if type(f) is list and len(f) > 1 and not isinstance(f[0], list) and is_list(f[0]) and len(f[0]) > 0:
             # Filter out semicolons and check if ALL remaining elements are symbols.
             # A mixed list like [a 1] is a normal array literal, not a local declaration.
             non_sep = [q for q in f[0] if q != ';']
